@@ -36,7 +36,15 @@ ASSUMPTIONS = [
     '("started" may overtake the submit callback).',
     'No manual intervention except polls (polls are in the quantifier).',
     'Poll results are truthful for the instant the poll command was launched '
-    'but may be delivered late.',
+    'but may be delivered late.  A status change made while processing a '
+    'poll result is tagged stale iff the job has emitted further messages '
+    '(or was killed) since the poll looked at it; an illegal transition made '
+    'on a stale poll result gets its own signature suffix '
+    '":stale-poll-result" (known finding: late poll result believed), any '
+    'other illegal transition keeps the plain signature.',
+    'Like a final message, a poll does not report the end of a job before '
+    'the jobs-submit command that launched it has returned (that command is '
+    'returned first).',
 ]
 
 RANK = {'waiting': 0, 'preparing': 1, 'submitted': 2, 'running': 3,
@@ -135,11 +143,21 @@ async def _check(case, ctx: Ctx) -> CaseResult:
                 if why == 'retry':
                     classes.add('retry-to-waiting')
                 if not ok:
+                    sig = 'C09:illegal-transition:' + '>'.join(
+                        [ev['before'][0], ev['after'][0]])
+                    note = ''
+                    if ev.get('stale_poll'):
+                        # root cause apart: the change was made while
+                        # processing a poll result that describes the job
+                        # as it was before it emitted further messages
+                        classes.add('stale-poll-result-processed')
+                        sig += ':stale-poll-result'
+                        note = ('; made on a late poll result (the job has '
+                                'emitted more since the poll looked at it)')
                     viol.append(Violation(
-                        'C09:illegal-transition:' + '>'.join(
-                            [ev['before'][0], ev['after'][0]]),
+                        sig,
                         f'{ev["cycle"]}/{ev["name"]}: {why} at iteration '
-                        f'{ev["it"]} (call path {ev["site"]})'))
+                        f'{ev["it"]} (call path {ev["site"]}){note}'))
             elif ev['k'] == 'pm':
                 if ev['before'] == ev['after'] and ev['flag'] == '(received)':
                     classes.add('message-changed-nothing')
